@@ -43,15 +43,37 @@ def check_instance_of_generic_class_and_get_type_vars(instance: Any) -> Dict[Typ
     # The information I need is set after the object construction in the __orig_class__ attribute.
     # This method is called before construction, and therefore it returns if the value isn't set
     # https://stackoverflow.com/questions/60985221/how-can-i-access-t-from-a-generict-instance-early-in-its-lifecycle
-    if not hasattr(instance, '__orig_class__'):
+    orig_class = get_instance_attribute(instance=instance, name='__orig_class__')
+
+    if orig_class is None:
         return type_vars
 
     type_variables = type(instance).__parameters__  # the type parameters of the class, whatever base it has them from
-    actual_types = get_type_arguments(instance.__orig_class__)
+    actual_types = get_type_arguments(orig_class)
 
     for i, type_var in enumerate(type_variables):
         type_vars[type_var] = actual_types[i]
     return type_vars
+
+
+def get_instance_attribute(instance: Any, name: str, default: Any = None) -> Any:
+    """
+        Reads an attribute that the library (or typing) has stored on the instance, without falling back to a
+        __getattr__ of the class: that method is user code - in a pedantic class even a checked method, whose wrapper asks
+        for the type variables of the instance again.
+
+        >>> class A:
+        ...     def __getattr__(self, name): return 42
+        >>> a = A()
+        >>> get_instance_attribute(a, 'x')
+        >>> a.x = 1
+        >>> get_instance_attribute(a, 'x')
+        1
+    """
+    try:
+        return object.__getattribute__(instance, name)
+    except AttributeError:
+        return default
 
 
 def _assert_constructor_called_with_generics(instance: Any) -> None:
@@ -78,7 +100,7 @@ def _assert_constructor_called_with_generics(instance: Any) -> None:
         >>> _assert_constructor_called_with_generics(g)
     """
 
-    if hasattr(instance, ATTR_NAME_GENERIC_INSTANCE_ALREADY_CHECKED):
+    if get_instance_attribute(instance=instance, name=ATTR_NAME_GENERIC_INSTANCE_ALREADY_CHECKED) is not None:
         return
 
     name = instance.__class__.__name__
